@@ -25,6 +25,9 @@ def run(chk, prog):
     depthguard.rule_balanced(chk, prog, "no-residue", "milu", "script.rs", 1,
                              "after enough refused replacements the filters of the list still in force fail to evaluate (counted as no match) "
                              "and valid replacements are refused on that thread")
+    # a replacement is refused when one of its filters is ill-typed: that needs a checker that admits no more than the evaluator handles
+    from . import c08 as _c08
+    _c08.rule_variants(chk, prog, "validate-complete")
     # ---------------------------------------------------------------- (1) single writer
     writers = []
     for f in prog.fns.values():
